@@ -265,7 +265,7 @@ fn c17_strategy(_tier: Tier) -> BoxedStrategy<Case> {
             engines: vec![Engine::TopC, Engine::LowC, Engine::TopC, Engine::TopAuto, Engine::TopNc, Engine::LowNc, Engine::TopDfa, Engine::LowDfa, Engine::TopAuto],
             ..CfgOpts::default()
         },
-        pats: PatOpts { w_empty: 3, max_class: 1, long: false, w_shapes: 8, w_adversarial: 8, w_fanout: 0 },
+        pats: PatOpts { w_empty: 3, max_class: 1, long: true, w_shapes: 10, w_adversarial: 8, w_fanout: 0 },
         hay: HayOpts { size_class: 2 },
         full_span_only: true,
         alphabets: gen::default_alphabets(),
@@ -351,9 +351,11 @@ fn hammer(tier: Tier, ctx: &mut Ctx) -> Result<(), crate::runner::Violation> {
     for engine in [Engine::TopC, Engine::LowC, Engine::TopNc, Engine::TopDfa, Engine::TopAuto] {
         for mk in Mk::ALL {
             for (ai, alpha) in alphas.iter().enumerate() {
-                for kind in [1u8, 3, 4, 5] {
-                    let list = gen::PatList::Adversarial { kind, k: 9 + ai as u8 * 3, n: 10 };
+                for kind in [1u8, 3, 4, 5, 44] {
+                    // kind 44: prefixes of a^40 b - a state carrying 40 matches
+                    let list = if kind == 44 { gen::PatList::Adversarial { kind: 4, k: 40, n: 40 } } else { gen::PatList::Adversarial { kind, k: 9 + ai as u8 * 3, n: 10 } };
                     let patterns = gen::realize_patterns(&list, alpha);
+                    let iterations = if kind == 44 { iterations / 6 } else { iterations };
                     let cfg = Cfg { engine, mk, sk: Sk::Unanchored, prefilter: kind % 2 == 0, dense_depth: 1, byte_classes: true, casei: false };
                     let case = Case { prop: "C17".into(), sub: "hammer".into(), cfg: cfg.clone(), patterns: patterns.clone(), threads: 8, ..Case::default() };
                     let fail = |reason: String| crate::runner::Violation { case: case.clone(), reason };
@@ -372,9 +374,19 @@ fn hammer(tier: Tier, ctx: &mut Ctx) -> Result<(), crate::runner::Violation> {
                             h
                         })
                         .collect();
+                    // standard kind: the overlapping stepping history (walks
+                    // whole match lists); leftmost kinds: the iterator
+                    let overlapping = mk == Mk::Standard;
                     let expect: Vec<Vec<crate::model::M>> = hays
                         .iter()
-                        .map(|h| Occ::new(&patterns, h, false).iter(mk, 0, h.len(), false))
+                        .map(|h| {
+                            let occ = Occ::new(&patterns, h, false);
+                            if overlapping {
+                                occ.overlapping(0, h.len(), false)
+                            } else {
+                                occ.iter(mk, 0, h.len(), false)
+                            }
+                        })
                         .collect();
                     let barrier = std::sync::Barrier::new(hays.len());
                     let bad: std::sync::Mutex<Option<String>> = std::sync::Mutex::new(None);
@@ -384,7 +396,13 @@ fn hammer(tier: Tier, ctx: &mut Ctx) -> Result<(), crate::runner::Violation> {
                             sc.spawn(move || {
                                 barrier.wait();
                                 for it in 0..iterations {
-                                    let r = guard(|| s.try_find_iter(input(h, (0, h.len()), false, false)));
+                                    let r = guard(|| {
+                                        if overlapping {
+                                            s.overlapping_steps(input(h, (0, h.len()), false, false), 0, 1_000_000)
+                                        } else {
+                                            s.try_find_iter(input(h, (0, h.len()), false, false))
+                                        }
+                                    });
                                     let ok = matches!(&r, Ok(Ok(v)) if *v == expect[t]);
                                     if !ok {
                                         let mut b = bad.lock().unwrap();
@@ -436,7 +454,7 @@ pub const C17: PropDef = PropDef {
     rule: "generated histories of 2..10 operations (find, earliest, find_iter, overlapping steps, is_match, replace_all_bytes, stream search, packed find_iter) over {searcher, clone, clone of clone, a second searcher with longer patterns derived from the same list, its clone} x generated haystacks/spans/anchoring (stream searches use 1..4-byte reads at the default buffer capacity), all engines and match kinds. \
 Oracle: (1) sequential: every value-defined result equals the reference model; (2) history independence: every operation re-run later, in reverse order and on each handle of the same searcher, returns the identical value; \
 (3) concurrency: 2..8 threads (released together by a barrier) run rotated slices of the history three times on the shared searchers and clones, every result must equal the sequential one; an in-flight counter measures whether searches actually overlapped. \
-A contention sub-run hammers one shared searcher per (5 engines x 3 match kinds x 8 adversarial deep-failure-chain pattern sets) from 8 barrier-released threads, each repeating its own chain-riding search 1500 (thorough 6000) times against the sequential model result. A keyword scan of /repo/src for interior mutability outside the verification hooks is recorded as context only (it never produces a violation). \
+A contention sub-run hammers one shared searcher per (5 engines x 3 match kinds x 10 adversarial deep-failure-chain pattern sets incl. one whose states carry 40 matches; overlapping stepping for the standard kind, the iterator otherwise) from 8 barrier-released threads, each repeating its own chain-riding search 1500 (thorough 6000) times against the sequential model result. A keyword scan of /repo/src for interior mutability outside the verification hooks is recorded as context only (it never produces a violation). \
 Non-trivial = at least two searches were in flight at the same time and the history uses at least two different handles. Distinct = distinct case fingerprint.",
     assumptions: &[
         "interleavings are sampled by the OS scheduler, not enumerated; this family cannot decide the schedule quantifier exhaustively",
